@@ -17,7 +17,7 @@ RULE = ("exact families: the real freq_response / dft / LinearFilter.__call__ ru
         "libm call is replaced), or on floats at w = 0 where every operation is exact; filters of order <= 6 with "
         "zero coefficients (merged Horner steps), leading zeros in the denominator (Laurent path), all-zero "
         "denominators, denominators vanishing at the probed frequency (nan), cascades and parallel banks of 0-3 "
-        "sections; exhaustive over coefficients {-1,0,1} for short filters. non-trivial = at least two non-zero "
+        "sections, nested cascades / banks of depth <= 3 with mixed and same-kind nesting (family tree); exhaustive over coefficients {-1,0,1} for short filters. non-trivial = at least two non-zero "
         "denominator or three numerator coefficients at a frequency other than 0 and pi. enclosure family "
         "(extra): float runs, see C12_encl.RULE")
 EXHAUSTIVE = {"quick": False, "thorough": False}
@@ -217,6 +217,93 @@ def nontrivial_fr(c, o):
   return any(nz(a) >= 2 or nz(b) >= 3 for b, a in c["secs"])
 
 
+# ------------------------------------------------------------------ family tree (nested lists)
+def rnd_leaf(rng, u):
+  b = rnd_list(rng, 4, 0)
+  x = rng.random()
+  if x < 0.03:
+    a = [CQ(0)] * rng.randrange(0, 2)
+  elif x < 0.1:
+    a = vanishing_den(rng, u)
+  elif x < 0.2:
+    a = [CQ(0)] + rnd_list(rng, 3, 1, p_zero=0.1)
+  else:
+    a = rnd_list(rng, 4, 1)
+  return ["lin", [cj(c) for c in b], [cj(c) for c in a]]
+
+
+def rnd_tree(rng, depth, u, kind=None):
+  if depth == 0 or (kind is None and rng.random() < 0.1) or (kind is not None and rng.random() < 0.45):
+    return rnd_leaf(rng, u)
+  k = rng.choice(["cas", "par"])
+  if kind is not None and rng.random() < 0.7:
+    k = "par" if kind == "cas" else "cas"        # mixed nesting is the interesting case
+  n = rng.choice([0, 1, 2, 2, 2, 3, 3]) if rng.random() < 0.15 else rng.choice([2, 2, 3])
+  return [k, [rnd_tree(rng, depth - 1, u, k) for _ in range(n)]]
+
+
+def tree_depth(t):
+  return 0 if t[0] == "lin" else 1 + max([tree_depth(c) for c in t[1]] + [0])
+
+
+def tree_mixed(t, parent=None):
+  """a list of the other kind with at least two items directly inside a list"""
+  if t[0] == "lin":
+    return False
+  here = parent is not None and parent != t[0] and len(t[1]) >= 2
+  return here or any(tree_mixed(c, t[0]) for c in t[1])
+
+
+def gen_tree(tier, rng):
+  A = ["lin", [cj(CQ(1)), cj(CQ(Fraction(1, 2)))], [cj(CQ(1)), cj(CQ(Fraction(-1, 4)))]]
+  B = ["lin", [cj(CQ(Fraction(1, 4))), cj(CQ(0)), cj(CQ(-1))], [cj(CQ(1)), cj(CQ(Fraction(1, 2))), cj(CQ(Fraction(1, 8)))]]
+  Cc = ["lin", [cj(CQ(2)), cj(CQ(Fraction(-3, 4)))], [cj(CQ(1)), cj(CQ(Fraction(-1, 2)))]]
+  for u in [CQ(1), unit_point(1, 2), unit_point(-2, 3), CQ(-1)]:
+    for o in ("cas", "par"):
+      for i in ("cas", "par"):
+        shapes = [[o, [[i, [A, B]], Cc]], [o, [A, [i, [B, Cc]]]], [o, [[i, [A, B]], [i, [Cc, A]]]],
+                  [o, [[i, [[o, [A, B]], Cc]], B]], [o, [[i, [A]], B]], [o, [[i, []], B]],
+                  [o, [[i, [[i, [A, B]], [o, [B, Cc]]]]]]]
+        for t in shapes:
+          yield {"tree": t, "u": cj(u), "tags": ["exh", "outer=%s" % o, "inner=%s" % i]}
+  n = 250 if tier == "quick" else 3000
+  for _ in range(n):
+    u = rnd_point(rng)
+    t = rnd_tree(rng, 3, u)
+    yield {"tree": t, "u": cj(u), "tags": ["random", "depth=%d" % tree_depth(t), "mixed" if tree_mixed(t) else "unmixed"]}
+
+
+def build_tree(t, conv):
+  from audiolazy import ZFilter, CascadeFilter, ParallelFilter
+  if t[0] == "lin":
+    return ZFilter([conv(x) for x in t[1]], [conv(x) for x in t[2]])
+  return (CascadeFilter if t[0] == "cas" else ParallelFilter)(*[build_tree(c, conv) for c in t[1]])
+
+
+def run_tree(c):
+  try:
+    with exact_exponentials():
+      r = build_tree(c["tree"], cqv).freq_response(UnitAngle(cqv(c["u"])))
+  except Exception as e:
+    return {"r": ["exc", type(e).__name__]}
+  return {"r": num_obs(r)}
+
+
+def tree_lit(t):
+  if t[0] == "lin":
+    return "(TLin %s %s)" % (cqlist(t[1]), cqlist(t[2]))
+  return "(%s %s)" % ("TCas" if t[0] == "cas" else "TPar", L.lst([tree_lit(c) for c in t[1]]))
+
+
+def lit_tree(c, o):
+  r = o.get("r", ["exc", o.get("raise", "?")])
+  return "(TC %s %s %s)" % (tree_lit(c["tree"]), cql(c["u"]), oresp_lit(r))
+
+
+def nontrivial_tree(c, o):
+  return tree_mixed(c["tree"]) and cqv(c["u"]) not in (CQ(1), CQ(-1))
+
+
 # ------------------------------------------------------------------ family kind
 KINDS = ["IScalar", "IList", "ITuple", "IDeque", "IStream", "IGen", "IMap", "IListIter"]
 
@@ -411,6 +498,7 @@ def nontrivial_fir(c, o):
 IMPORTS = "From AL Require Import C12.Model C12.Spec C12.Check."
 FAMILIES = collections.OrderedDict([
   ("fr", Family("fr", IMPORTS, "frcase", "corr_fr", "holds_fr", gen_fr, run_fr, lit_fr, nontrivial_fr)),
+  ("tree", Family("tree", IMPORTS, "tcase", "corr_tree", "holds_tree", gen_tree, run_tree, lit_tree, nontrivial_tree)),
   ("kind", Family("kind", IMPORTS, "kcase", "corr_kind", "holds_kind", gen_kind, run_kind, lit_kind)),
   ("dft", Family("dft", IMPORTS, "dcase", "corr_dft", "holds_dft", gen_dft, run_dft, lit_dft, nontrivial_dft)),
   ("fir", Family("fir", IMPORTS, "fcase", "corr_fir", "holds_fir", gen_fir, run_fir, lit_fir, nontrivial_fir)),
